@@ -6,10 +6,11 @@ CONSTANTS
     Events <- MC_Events
     FixF8 = TRUE
     FixF9 = TRUE
+    AndClaimsUnique = FALSE
     CarveF17 = TRUE
     Emit = TRUE
     MaxExtras = 3
     Tier = "thorough"
-INVARIANTS TypeOK AttrKeysUnique EveryPropOnce FirstWins WellKnownLifted Total Refines
+INVARIANTS TypeOK UniqueClaimSound AttrKeysUnique EveryPropOnce FirstWins WellKnownLifted Total Refines
 ACTION_CONSTRAINT EmitReplay
 CHECK_DEADLOCK FALSE
